@@ -5,18 +5,24 @@ import json, re, subprocess, sys
 from pathlib import Path
 VERIF = Path(__file__).resolve().parent.parent
 rows = []
-only = sys.argv[1:]
+args = sys.argv[1:]
+OWN = "--own" in args  # run only the check of the seed's own property (fast: the guarantee that matters)
+only = [a for a in args if a != "--own"]
 for d in sorted((VERIF / "seeded").iterdir()):
     if not (d / "patch.diff").exists() or (only and d.name not in only):
         continue
     meta = json.loads((d / "meta.json").read_text())
-    t = subprocess.run([str(VERIF / "tools/try_seed.py"), str(d / "patch.diff")], capture_output=True, text=True)
+    t = subprocess.run([str(VERIF / "tools/try_seed.py"), str(d / "patch.diff")] + ([meta["property"]] if OWN else []), capture_output=True, text=True)
     if "PATCH-DOES-NOT-APPLY" in (t.stdout + t.stderr):
         print(f"| `{d.name}` | PATCH DOES NOT APPLY to the current tree — rebase it |")
         continue
     det = re.findall(r"^(C\d+): exit 1 (\[.*?\])", t.stdout, re.M)
     err = re.findall(r"^(C\d+): exit 2", t.stdout, re.M)
-    meta["detected_by_now"] = [{"check": c, "rules": r} for c, r in det]
+    if OWN:
+        others = [x for x in meta.get("detected_by_now", meta.get("detected_by", [])) if x["check"] != meta["property"]]
+        meta["detected_by_now"] = [{"check": c, "rules": r} for c, r in det] + others
+    else:
+        meta["detected_by_now"] = [{"check": c, "rules": r} for c, r in det]
     meta["own_property_check_fires"] = any(c == meta["property"] for c, _ in det)
     (d / "meta.json").write_text(json.dumps(meta, indent=1))
     rows.append((d.name, meta["property"], "; ".join(f"{c} {r}" for c, r in det) or "MISSED", meta.get("missed_at_first"), err))
